@@ -29,5 +29,7 @@ def check(run):
     run.gen("Gen_C06")      # signing constructors: decoded content (C02), published date (C15)
     # histories on the library's mutable objects: what a builder / a RouterInfo handed out earlier stays what it was
     run.gen("Gen_Objects")
+    # a struct copy of a parsed value, edited through an exported field and serialised: the original and its input buffer do not notice
+    run.gen("Gen_WarmEdit", consts={"Part": "all"}, tag="Gen_WarmEdit_all")
     run.replay_and_judge()
     return vlib.finish(run, "model_checking", RULE, ASSUME)
